@@ -70,6 +70,8 @@ class Model(object):
       self._seq(self.prog['nodes'], None, False)
       for k, d in enumerate(self.prog['tdiags']):
         x.events.append(('tdiag', k))
+        if d.get('raise') == 'exit':
+          x.unspecified.append('test diagnoser calls sys.exit()')
         if d.get('raise') or d.get('garbage'):
           self._terminal(('EXC', 'DiagBoom' if d.get('raise') else 'InvalidDiagnosisError'))
           continue
@@ -344,6 +346,8 @@ class Model(object):
     if kind not in ('REPEAT', 'SKIP'):
       for k, d in enumerate(n['d']):
         x.events.append(('diag', pid, k))
+        if d.get('raise') == 'exit':
+          x.unspecified.append('phase diagnoser calls sys.exit()')
         if d.get('raise') or d.get('garbage'):
           if not is_terminal_kind(kind):
             kind = 'EXC:' + ('DiagBoom' if d.get('raise') else 'InvalidDiagnosisError')
